@@ -317,7 +317,7 @@ def client_actor(world, cid_hint, spec, result):
                 if closes_connection(r):
                     break
             result["expect"] = expect
-            if not reading_wait(lambda cl: nfinal(cl)[0] >= expect):
+            if not reading_wait(lambda cl: nfinal(cl)[0] >= expect) and not c.eof():
                 return
     else:
         data = b"".join(b"".join(request_bytes(cid, i, r)) for i, r in enumerate(reqs))
